@@ -1252,7 +1252,7 @@ def exampleCfg : Cfg :=
 /-- non-vacuity of `ProviderCostOk` for a MeCab provider (one class, one `unk.def` line of cost 300), of the equation
 `hbuild` of `tokenize_total_compiled` (a configuration over the compiled empty definition) and of `hnoplug`/`hnorew`/`hstr`
 of `tokenize_total_no_plugins` (`exampleCfg` has no plugin; `ab` decodes) -/
-example : ProviderCostOk (.mecab ⟨[(1, ⟨1, true, false, 2⟩)], [(1, [⟨0, 0, 300, 0⟩])]⟩) ∧
+example : ProviderCostOk (.mecab ⟨[(1, ⟨1, true, false, 2⟩)], [(1, [⟨0, 0, 300, 0⟩])], false⟩) ∧
     ({ totalCfg with mkBuf := builtBuf .forward true (CharCat.compile []) } : Cfg).mkBuf
       = builtBuf .forward true (CharCat.compile []) ∧
     exampleCfg.inputPlugins = [] ∧
